@@ -6,6 +6,7 @@ package main
 
 import (
 	"fmt"
+	"unicode/utf8"
 	"go/constant"
 	"go/token"
 	"go/types"
@@ -142,6 +143,62 @@ func (p *Path) callFunction(fn *ssa.Function, args []Value, env []Value) Value {
 	}
 	p.stack = append(p.stack, fn)
 	defer func() { p.stack = p.stack[:len(p.stack)-1] }()
+	if p.pureScalar(fn, args) {
+		return p.runFrameOrSummarise(fr, fn, args)
+	}
+	return p.runFrame(fr)
+}
+
+// pureScalar: a function of the code under test whose parameters and single result are scalars
+// and whose arguments are not all constant: a candidate for automatic summarisation.
+func (p *Path) pureScalar(fn *ssa.Function, args []Value) bool {
+	if fn.Pkg == nil || !p.ex.pkgs[fn.Pkg] || len(fn.FreeVars) > 0 || fn.Signature.Recv() != nil {
+		return false
+	}
+	if strings.Contains(p.ex.prog.Fset.Position(fn.Pos()).Filename, "zz_verif_") {
+		return false
+	}
+	if fn.Signature.Results().Len() != 1 || len(args) == 0 {
+		return false
+	}
+	if b, ok := fn.Signature.Results().At(0).Type().Underlying().(*types.Basic); !ok || b.Info()&(types.IsString|types.IsInteger|types.IsBoolean) == 0 {
+		return false
+	}
+	allConst := true
+	for _, a := range args {
+		t, ok := a.(*Term)
+		if !ok {
+			return false
+		}
+		if !t.IsConst() {
+			allConst = false
+		}
+	}
+	return !allConst
+}
+
+// runFrameOrSummarise: if the body cannot be encoded (unsupported construct) and has written
+// nothing, the call becomes an uninterpreted application whose real values are obtained by
+// interpreting the function on constants (sound over-approximation; counterexamples are validated).
+func (p *Path) runFrameOrSummarise(fr *frame, fn *ssa.Function, args []Value) (res Value) {
+	writes, depth, stack, decs := p.writes, p.depth, len(p.stack), len(p.trail)
+	defer func() {
+		if r := recover(); r != nil {
+			pa, ok := r.(pathAbort)
+			if !ok || pa.kind != "unsupported" || p.writes != writes || len(p.trail) != decs {
+				panic(r)
+			}
+			p.depth = depth
+			p.stack = p.stack[:stack]
+			var ts []*Term
+			for _, a := range args {
+				ts = append(ts, a.(*Term))
+			}
+			b := fn.Signature.Results().At(0).Type().Underlying().(*types.Basic)
+			registerAuto(fn)
+			res = mkUF("auto:"+fn.Name(), sortOfBasic(b), ts...)
+		}
+	}()
 	return p.runFrame(fr)
 }
 
@@ -410,7 +467,25 @@ func (p *Path) runFrame(fr *frame) Value {
 			case *ssa.RunDefers:
 				p.runDefers(fr)
 			case *ssa.Defer:
-				p.unsupported("defer in %s", fr.fn)
+				// the call's function value and arguments are evaluated now, the call happens at RunDefers
+				c := in.Call
+				if c.IsInvoke() {
+					p.unsupported("defer of an interface method call in %s", fr.fn)
+				}
+				var dargs []Value
+				for _, a := range c.Args {
+					dargs = append(dargs, p.get(fr, a))
+				}
+				if sc := c.StaticCallee(); sc != nil {
+					var env []Value
+					if mc, ok := c.Value.(*ssa.MakeClosure); ok {
+						env = p.get(fr, mc).(*Closure).env
+					}
+					fr.defers = append(fr.defers, func() { p.callFunction(sc, dargs, env) })
+				} else {
+					fv := p.get(fr, c.Value)
+					fr.defers = append(fr.defers, func() { p.callValue(fv, dargs) })
+				}
 			case *ssa.Go:
 				p.unsupported("go statement in %s", fr.fn)
 			case *ssa.Store:
@@ -419,6 +494,7 @@ func (p *Path) runFrame(fr *frame) Value {
 					p.goPanic("nil pointer dereference (store) in %s", fr.fn)
 				}
 				p.noteWriteCell(ptr.p)
+				p.writes++
 				*ptr.p = copyVal(p.get(fr, in.Val))
 			case *ssa.MapUpdate:
 				m := p.get(fr, in.Map).(MapRef)
@@ -599,8 +675,23 @@ func (p *Path) eval(fr *frame, ins ssa.Value) Value {
 			}
 			return it
 		}
+		if t, ok := x.(*Term); ok && t.Sort == SStr {
+			if !t.IsConst() {
+				p.unsupported("range over a symbolic string")
+			}
+			return &StrIter{s: t.S}
+		}
 		p.unsupported("range over %T", x)
 	case *ssa.Next:
+		if si, ok := p.get(fr, in.Iter).(*StrIter); ok {
+			if si.pos >= len(si.s) {
+				return Tuple{tFalse, mkInt(0), mkInt(0)}
+			}
+			r, n := utf8.DecodeRuneInString(si.s[si.pos:])
+			i := si.pos
+			si.pos += n
+			return Tuple{tTrue, mkInt(int64(i)), mkInt(int64(r))}
+		}
 		it := p.get(fr, in.Iter).(*MapIter)
 		return p.mapNext(it, in)
 	case *ssa.TypeAssert:
